@@ -1,4 +1,4 @@
-From Orbit Require Export Corr.Common Model.Status Model.Current.
+From Orbit Require Export Corr.Common Model.Status Model.StatusConc Model.Current.
 
 (** observed status samples: (progress, max, log length, largest time in the log, at_rest) *)
 Record sample := mkSm { sm_p : Z; sm_m : Z; sm_len : Z; sm_maxt : Z; sm_rest : bool }.
@@ -12,7 +12,14 @@ Inductive case :=
 | CSamples (samples : list sample)
 (* the exact sequence of recalculations performed by one open store, each with its
    argument, the log length it read, and the status it left: (is_max, arg, len, progress, max) *)
-| CPrims (ops : list (bool * Z * Z * Z * Z)).
+| CPrims (ops : list (bool * Z * Z * Z * Z))
+(* a forced (or observed) interleaving of recalculations on one open store: the status and
+   log length at the start, one program per observed recalculation call, the schedule cut
+   into pieces, each followed by the (progress, max, log length) sampled at that moment,
+   whether the schedule could be established exactly from the observation, and all samples
+   (including those taken while a recalculation was in flight) for the property itself *)
+| CConc (start : Z * Z) (len0 : Z) (ps : list prog)
+        (chunks : list (list label * (Z * Z * Z))) (exact : bool) (samples : list sample).
 
 Fixpoint prims_ok (s : status) (ops : list (bool * Z * Z * Z * Z)) : bool :=
   match ops with
@@ -32,6 +39,37 @@ Fixpoint samples_ok (prev : option sample) (l : list sample) : bool :=
     samples_ok (Some s) r
   end.
 
+(** replay of a schedule piece on the concurrent model; also reports whether every label
+    was enabled (the observed steps did happen, so the model must allow each of them) *)
+Fixpoint run_checked (atomic mm : bool) (sched : list label) (c : cstate) : cstate * bool :=
+  match sched with
+  | [] => (c, true)
+  | lb :: r =>
+    let '(c', ok) := run_checked atomic mm r (cstep atomic mm c lb) in
+    (c', enabled atomic c lb && ok)
+  end.
+
+Fixpoint chunks_ok (c : cstate) (chunks : list (list label * (Z * Z * Z))) : bool :=
+  match chunks with
+  | [] => threads_doneb c
+  | (sched, (p, m, l)) :: r =>
+    let '(c', ok) := run_checked c19_status_atomic_current max_monotone_current sched c in
+    ok && (s_progress (c_st c') =? p) && (s_max (c_st c') =? m) && (c_len c' =? l) && chunks_ok c' r
+  end.
+
+(** the property on samples of a store whose recalculations interleave: never decreases,
+    progress <= max(max, log length) (the invariant of the concurrent model); at rest:
+    progress = max and largest time <= max <= log length *)
+Fixpoint csamples_ok (prev : option sample) (l : list sample) : bool :=
+  match l with
+  | [] => true
+  | s :: r =>
+    (sm_p s <=? Z.max (sm_m s) (sm_len s)) &&
+    (match prev with Some q => (sm_p q <=? sm_p s) && (sm_m q <=? sm_m s) | None => true end) &&
+    (if sm_rest s then (sm_p s =? sm_m s) && (sm_maxt s <=? sm_m s) && (sm_m s <=? sm_len s) else true) &&
+    csamples_ok (Some s) r
+  end.
+
 Definition check (c : case) : bool * bool :=
   match c with
   | CStatus (p0, m0) evs (p1, m1) =>
@@ -39,6 +77,9 @@ Definition check (c : case) : bool * bool :=
     ((s_progress s =? p1) && (s_max s =? m1), true)
   | CSamples l => (true, samples_ok None l)
   | CPrims ops => (prims_ok status0 ops, true)
+  | CConc (p0, m0) len0 ps chunks exact samples =>
+    ((if exact then chunks_ok (cinit len0 (mkS p0 m0) ps) chunks else true),
+     csamples_ok None samples)
   end.
 
 Definition failures (base : nat) (cs : list case) := failures_from check base cs.
